@@ -23,7 +23,7 @@ from ref import docspec
 PROPERTY = "C03"
 LEVEL = "model_checking"
 RULE = ("explicit enumeration of document constructions: root variant x wrapper chain (each wrapper from a 25-entry menu) "
-        "x leaf (34 shape variants) inside, with probe leaves before and after the wrapped subtree, x configurations "
+        "x leaf (37 shape variants) inside, with probe leaves before and after the wrapped subtree, x configurations "
         "(reify, ppi, caller size, caller transform); model state = the reference renderer's state (CTM, viewport size, "
         "use stack) at each element; a transition = one element start; every rendered shape is compared.  Non-trivial: "
         "at least one wrapper or a non-default configuration; distinct = distinct (document, configuration).")
@@ -86,6 +86,10 @@ LEAVES = [
     ("circle-zero", '<circle id="{id}" cx="1" cy="2" r="0"/>'),
     ("polyline-empty", '<polyline id="{id}" points=""/>'),
     ("rect-round-auto", '<rect id="{id}" x="1" y="2" width="8" height="4" rx="3"/>'),
+    # an element hidden by its OWN display (keyword in any letter case, as attribute / inline style)
+    ("rect-display-none", '<rect id="{id}" x="1" y="2" width="3" height="4" display="none"/>'),
+    ("rect-display-None", '<rect id="{id}" x="1" y="2" width="3" height="4" display="None"/>'),
+    ("circle-style-display-NONE", '<circle id="{id}" cx="5" cy="6" r="2" style="display:NONE"/>'),
     # point-list spellings the grammar allows: a minus sign starts the next number without any separator
     ("polyline-compact", '<polyline id="{id}" points="10-5 20-3 4.5-2-7-8"/>'),
     ("polygon-compact", '<polygon id="{id}" points="10-5,20-3\t4.5-2\n-7-8"/>'),
